@@ -12,7 +12,7 @@
 #include "lz4frame.c"
 #include "gen.h"
 
-enum { OP_FRAME = 3, OP_FRAMEDEC = 4, OP_GENFUNC = 5 };
+enum { OP_FRAME = 3, OP_FRAMEDEC = 4, OP_GENFUNC = 5, OP_FRAMETRACE = 12 };
 enum { K_STREAM = 0, K_COMPRESSFRAME = 1, K_COMPRESSFRAME_CDICT = 2 };
 enum { DK_NONE = 0, DK_DICT = 1, DK_CDICT = 2 };
 
@@ -98,10 +98,30 @@ static int make_frame_stream(LZ4F_cctx* cctx, const LZ4F_preferences_t* prefs, c
 /* ---------- decoding with a chunking policy ---------- */
 typedef struct { int verdict; /* 0 complete, 1 error, 2 incomplete */ size_t consumed; vec_t out; size_t errcode; int noprogress; } decres_t;
 
+/* decompression contexts are created with a logging allocator: the sizes of the two internal buffers (tmpIn, tmpOutBuffer; always allocated
+   as a pair, in this order, by dstage_init) are part of the call trace and are compared with the model's allocation decisions */
+typedef struct { size_t sz[2]; int phase; LZ4F_dctx* owner; } dalloc_t;
+static dalloc_t g_da[4];
+static void* d_alloc(void* o, size_t sz) { dalloc_t* a = (dalloc_t*)o; a->sz[a->phase & 1] = sz; a->phase++; return malloc(sz); }
+static void* d_calloc(void* o, size_t sz) { (void)o; return calloc(1, sz); }
+static void d_free(void* o, void* p) { (void)o; free(p); }
+static LZ4F_dctx* new_dctx(int slot)
+{ LZ4F_CustomMem m; dalloc_t* a = &g_da[slot]; memset(a, 0, sizeof *a); m.customAlloc = d_alloc; m.customCalloc = d_calloc; m.customFree = d_free; m.opaqueState = a;
+  a->owner = LZ4F_createDecompressionContext_advanced(m, LZ4F_VERSION); return a->owner; }
+static dalloc_t* da_of(const LZ4F_dctx* d) { int i; for (i = 0; i < 4; i++) if (g_da[i].owner == d) return &g_da[i]; return NULL; }
+
+/* call trace of one decode_frame session, replayed call by call on the dStage model (Model/FrameDS.lean) by the judge:
+   per call 7 x u64 : input offered, output capacity, input consumed, output produced, return value, size of the tmpIn and tmpOutBuffer allocations */
+static vec_t g_trace; static u64 g_tracectr, g_tracectr2, n_traces, n_trace_calls; static int g_trace_fresh = 0, g_thorough = 0;
+static void trace_call(size_t a, size_t b, size_t c, size_t d, size_t r, const dalloc_t* da) { u64 v[7]; v[0] = a; v[1] = b; v[2] = c; v[3] = d; v[4] = r; v[5] = da ? da->sz[0] : 0; v[6] = da ? da->sz[1] : 0; vec_put(&g_trace, v, sizeof v); }
+
 static decres_t decode_frame(LZ4F_dctx* dctx, const u8* frame, size_t n, int policy, int skipChecksums, const u8* dict, size_t dictSize, u64 pseed)
 {
     decres_t d; size_t ip = 0; LZ4F_decompressOptions_t opt; u64 save = g_rs; int idle = 0; size_t hint = 1;
+    int tracing = g_trace_fresh && (n <= 20000 ? (g_thorough || n > 64 || policy != 1 || (++g_tracectr2 % 3) == 0) : (n <= 300000 && (++g_tracectr % 4) == 0));
     memset(&d, 0, sizeof d); memset(&opt, 0, sizeof opt); opt.skipChecksums = (unsigned)skipChecksums;
+    dalloc_t* da = da_of(dctx); size_t in0 = da ? da->sz[0] : 0, out0 = da ? da->sz[1] : 0;
+    g_trace.n = 0;
     g_rs = pseed; d.verdict = 2;
     for (;;) {
         size_t inAvail, outCap, inUse, outUse, r; u8* src; u8* dst;
@@ -118,6 +138,7 @@ static decres_t decode_frame(LZ4F_dctx* dctx, const u8* frame, size_t n, int pol
         inUse = inAvail; outUse = outCap;
         r = dictSize ? LZ4F_decompress_usingDict(dctx, dst, &outUse, src, &inUse, dict, dictSize, &opt) : LZ4F_decompress(dctx, dst, &outUse, src, &inUse, &opt);
         n_calls++;
+        if (tracing && g_trace.n < 56 * 30000) trace_call(inAvail, outCap, inUse, outUse, r, da); else tracing = 0;
         if (inUse > inAvail || outUse > outCap) { d.verdict = 1; d.errcode = 999; free(src); free(dst); break; }
         vec_put(&d.out, dst, outUse); ip += inUse; free(src); free(dst);
         if (LZ4F_isError(r)) { d.verdict = 1; d.errcode = r; break; }
@@ -132,6 +153,10 @@ static decres_t decode_frame(LZ4F_dctx* dctx, const u8* frame, size_t n, int pol
         if (d.out.n > (1u << 28)) { d.verdict = 1; d.errcode = 996; break; }
     }
     d.consumed = ip; g_rs = save;
+    if (tracing && g_trace.n) {
+        rec_t t; rec_begin(&t, OP_FRAMETRACE); rec_int(&t, skipChecksums); rec_int(&t, (long long)dictSize); rec_bytes(&t, frame, n); rec_bytes(&t, g_trace.p, g_trace.n);
+        rec_bytes(&t, d.out.p, d.out.n); rec_int(&t, d.verdict); rec_int(&t, policy); rec_int(&t, da ? 1 : 0); rec_int(&t, (long long)in0); rec_int(&t, (long long)out0); rec_write(&t); n_traces++; n_trace_calls += g_trace.n / 56;
+    }
     return d;
 }
 
@@ -185,7 +210,7 @@ static void frame_case(LZ4F_cctx* cctx, LZ4F_dctx* dctx, const u8* in, size_t n,
             decres_t d;
             if (policy == 1 && out.n > 30000) policy = 2;
             if ((policy == 2 || policy == 4) && n > 300000) policy = 5;
-            d = decode_frame(dctx, out.p, out.n, policy, 0, g_dictbuf + (70000 - dictSize), dictSize, rnd()); n_decodes++;
+            g_trace_fresh = 1; d = decode_frame(dctx, out.p, out.n, policy, 0, g_dictbuf + (70000 - dictSize), dictSize, rnd()); n_decodes++; g_trace_fresh = 0;
             if (d.verdict != 0) { char why[80]; snprintf(why, sizeof why, d.noprogress ? "decoder_no_progress_policy%d" : "roundtrip_decode_not_complete_policy%d", policy); c_fail(&r, why); LZ4F_resetDecompressionContext(dctx); }
             else if (d.consumed != out.n) c_fail(&r, "roundtrip_decode_stopped_before_frame_end");
             else if (d.out.n != n || (n && memcmp(d.out.p, in, n) != 0)) c_fail(&r, "roundtrip_content_mismatch");
@@ -204,7 +229,7 @@ static void decode_case(LZ4F_dctx* dctx, const u8* bytes, size_t n, size_t dictS
     rec_begin(&r, OP_FRAMEDEC); rec_int(&r, skipChecksums); rec_int(&r, (long long)dictSize); rec_bytes(&r, bytes, n); rec_int(&r, 0); rec_int(&r, 0); rec_bytes(&r, NULL, 0);
     cur_set(&r);
     LZ4F_resetDecompressionContext(dctx);
-    ref = decode_frame(dctx, bytes, n, 0, skipChecksums, g_dictbuf + (70000 - dictSize), dictSize, ps); n_decodes++;
+    g_trace_fresh = 1; ref = decode_frame(dctx, bytes, n, 0, skipChecksums, g_dictbuf + (70000 - dictSize), dictSize, ps); n_decodes++; g_trace_fresh = 0;
     if (ref.verdict == 0) n_dec_ok++; else if (ref.verdict == 1) n_dec_err++; else n_dec_incomplete++;
     r.n = 3; rec_int(&r, ref.verdict); rec_int(&r, (long long)ref.consumed); rec_bytes(&r, ref.out.p, ref.verdict == 0 ? ref.out.n : 0);
     rec_int(&r, (ref.verdict == 1 && LZ4F_isError(ref.errcode)) ? (long long)LZ4F_getErrorCode(ref.errcode) : 0);   /* arg 6: LZ4F error enum */
@@ -212,7 +237,7 @@ static void decode_case(LZ4F_dctx* dctx, const u8* bytes, size_t n, size_t dictS
     for (p = 1; p < npol; p++) {
         int policy = (p == 1 && n <= 4000) ? 1 : (int)(2 + rndn(4)); decres_t d;
         LZ4F_resetDecompressionContext(dctx);
-        d = decode_frame(dctx, bytes, n, policy, skipChecksums, g_dictbuf + (70000 - dictSize), dictSize, rnd()); n_decodes++;
+        g_trace_fresh = 1; d = decode_frame(dctx, bytes, n, policy, skipChecksums, g_dictbuf + (70000 - dictSize), dictSize, rnd()); n_decodes++; g_trace_fresh = 0;
         if (d.noprogress) c_fail(&r, "decoder_no_progress");
         else if (d.verdict != ref.verdict) { char why[96]; snprintf(why, sizeof why, "verdict_depends_on_chunking_policy%d_%d_vs_%d", policy, d.verdict, ref.verdict); c_fail(&r, why); }
         else if (d.verdict == 0 && (d.out.n != ref.out.n || (d.out.n && memcmp(d.out.p, ref.out.p, d.out.n) != 0) || d.consumed != ref.consumed)) c_fail(&r, "output_depends_on_chunking");
@@ -229,12 +254,12 @@ int main(int argc, char** argv)
 {
     const char* mode; int thorough, i; u64 seed; u8* data; size_t maxn; LZ4F_cctx* cctx; LZ4F_dctx* dctx;
     if (argc < 6) { fprintf(stderr, "usage: frm mode tier seed casefile crashfile\n"); return 2; }
-    mode = argv[1]; thorough = !strcmp(argv[2], "thorough"); seed = strtoull(argv[3], 0, 10);
+    mode = argv[1]; thorough = !strcmp(argv[2], "thorough"); g_thorough = thorough; seed = strtoull(argv[3], 0, 10);
     harness_init(argv[4], argv[5], seed);
     g_dictbuf = xalloc(70000); gen_data(g_dictbuf, 70000, D_LZLIKE);
     { rec_t b; rec_begin(&b, 100); rec_int(&b, 1); rec_bytes(&b, g_dictbuf, 70000); rec_write(&b); }
     maxn = thorough ? (9u << 20) : (600u << 10); data = xalloc(maxn + 16);
-    LZ4F_createCompressionContext(&cctx, LZ4F_VERSION); LZ4F_createDecompressionContext(&dctx, LZ4F_VERSION);
+    LZ4F_createCompressionContext(&cctx, LZ4F_VERSION); dctx = new_dctx(0);
 
     if (!strcmp(mode, "c03") || !strcmp(mode, "c07")) {
         int ncases = thorough ? 6000 : 260;
@@ -335,7 +360,19 @@ int main(int argc, char** argv)
                 { size_t k; for (k = 0; k < L; k++) fr[p++] = (u8)(k * 7 + ds); }
                 c = XXH32(fr + bl, p - bl, 0); memcpy(fr + p, &c, 4); p += 4;
                 memset(fr + p, 0, 4); p += 4;
-                { LZ4F_dctx* fresh; LZ4F_createDecompressionContext(&fresh, LZ4F_VERSION); decode_case(fresh, fr, p, 0, 0, 1); LZ4F_freeDecompressionContext(fresh); }   /* a fresh context sizes its buffers for THIS frame */
+                { LZ4F_dctx* fresh = new_dctx(1); decode_case(fresh, fr, p, 0, 0, 1); LZ4F_freeDecompressionContext(fresh); g_da[1].owner = NULL; }
+                {   /* the same frame on a context whose buffers were sized by an EARLIER frame with other header flags (no block checksum / linked blocks / larger blocks) */
+                    static const u8 primFLG[] = {0x60, 0x40, 0x64, 0x60}; static const u8 primBD[] = {4 << 4, 4 << 4, 4 << 4, 5 << 4}; int pk;
+                    for (pk = 0; pk < 4; pk++) {
+                        u8 pf[32]; size_t q = 0; LZ4F_dctx* primed = new_dctx(1); decres_t t; u32 z;
+                        pf[q++] = 0x04; pf[q++] = 0x22; pf[q++] = 0x4D; pf[q++] = 0x18; pf[q++] = primFLG[pk]; pf[q++] = primBD[pk]; pf[q] = (u8)(XXH32(pf + 4, 2, 0) >> 8); q++;
+                        z = 0x80000003u; memcpy(pf + q, &z, 4); q += 4; pf[q++] = 'a'; pf[q++] = 'b'; pf[q++] = 'c'; memset(pf + q, 0, 4); q += 4;
+                        if (primFLG[pk] & 4) { z = XXH32("abc", 3, 0); memcpy(pf + q, &z, 4); q += 4; }
+                        t = decode_frame(primed, pf, q, 0, 0, NULL, 0, rnd()); free(t.out.p);
+                        if (t.verdict != 0) { rec_t e; rec_begin(&e, OP_FRAMEDEC); rec_int(&e, 0); rec_int(&e, 0); rec_bytes(&e, pf, q); c_fail(&e, "valid_frame_not_completed"); }
+                        decode_case(primed, fr, p, 0, 0, 1); LZ4F_freeDecompressionContext(primed); g_da[1].owner = NULL;
+                    }
+                }   /* a fresh context sizes its buffers for THIS frame */
                 free(fr);
             }
         }
@@ -550,7 +587,7 @@ int main(int argc, char** argv)
     LZ4F_freeCompressionContext(cctx); LZ4F_freeDecompressionContext(dctx);
     harness_done();
     stat_u("calls", n_calls); stat_u("reused_cctx_bytes_differ_from_fresh", n_reused_differs); stat_u("dictionary_derived_contents", n_dict_derived); stat_u("forged_content_sizes", n_forged_size); stat_u("headers_alone", n_headers); stat_u("frames_for_end_to_end_model", n_model_frames); stat_u("frames", n_frames); stat_u("decodes", n_decodes); stat_u("flushes", n_flush); stat_u("uncompressed_updates", n_uncomp); stat_u("volatile_sources", n_volatile);
-    stat_u("mode_switches_with_buffered_data", n_switch); stat_u("dec_complete", n_dec_ok); stat_u("dec_error", n_dec_err); stat_u("dec_incomplete", n_dec_incomplete); stat_u("records", g_nrecords);
+    stat_u("mode_switches_with_buffered_data", n_switch); stat_u("dec_complete", n_dec_ok); stat_u("dec_error", n_dec_err); stat_u("dec_incomplete", n_dec_incomplete); stat_u("records", g_nrecords); stat_u("dstage_traces", n_traces); stat_u("dstage_traced_calls", n_trace_calls);
     stat_u("cfails", (u64)g_cfails);
     free(data); free(g_dictbuf);
     return g_cfails ? 1 : 0;
